@@ -427,6 +427,9 @@ func (g *Global) fieldLocs0(ref, sk string, st *types.Struct, i int) []leafLoc {
 // rootFacts instantiates rootid(fld(r,i)) = rootid(r) / rootid(elm(r,i)) = rootid(r)
 // for the interior references occurring in ref.
 func (c *fnCtx) rootFacts(st *State, ref string) {
+	if strings.Contains(ref, "!q") {
+		return // mentions a bound variable of a quantified spec expression
+	}
 	for depth := 0; depth < 6; depth++ {
 		if !(strings.HasPrefix(ref, "(fld ") || strings.HasPrefix(ref, "(elm ")) {
 			return
